@@ -1044,7 +1044,7 @@ theorem ss_len_sim (k : Nat) : ∀ (n : Nat) (s0 : SpooledStringIO.len.St) (s : 
     · rw [if_pos h3]
       have h3' : (s.read (some s.chunk)).1 = [] := by simpa using h3
       refine ⟨{ s0 with self := st1, loc3 := (s.read (some s.chunk)).1 }, ?_, hrd.2, htot, rfl⟩
-      simp [SpooledStringIO.len.loop1.body, hread, hrd.1, h3']
+      simp [SpooledStringIO.len.loop1.body, hread, hrd.1, h3', PyRt.len]
     · rw [if_neg h3]
       have h3' : (s.read (some s.chunk)).1 ≠ [] := by simpa using h3
       have hok2 : lenOk k (s.read (some s.chunk)).2 = true := by
@@ -1058,7 +1058,7 @@ theorem ss_len_sim (k : Nat) : ∀ (n : Nat) (s0 : SpooledStringIO.len.St) (s : 
         (by simp [htot, PyRt.len]) hok2 (by omega)
       refine ⟨s', ?_, hrel', ht', hl'⟩
       rw [← hs']
-      simp [SpooledStringIO.len.loop1.body, hread, hrd.1, h3']
+      simp [SpooledStringIO.len.loop1.body, hread, hrd.1, h3', PyRt.len]
 
 theorem ss_len_sim_of_eq (k n : Nat) (s0 s1 : SpooledStringIO.len.St) (fl : Flow Int) (s : SStr) (total : Nat)
     (heq : whileLoop SpooledStringIO.len.loop1.cond SpooledStringIO.len.loop1.body n s0 = (fl, s1))
@@ -1159,10 +1159,11 @@ theorem src_ss_seek_cur_eq_model (lfuel : Nat) (st : SS) (s : SStr) (n : Nat) (h
   have hrel := ht.2
   refine ⟨?_, ?_⟩
   · simp [SpooledStringIO.seek, SpooledStringIO.seek.body, src_ss_checkClosed_eq_model,
-      htr, ht.1, src_ss_tell_eq_model, hc1]
+      htr, ht.1, src_ss_tell_eq_model, hc1] <;> try omega
   · constructor <;>
       simp [SpooledStringIO.seek, SpooledStringIO.seek.body, src_ss_checkClosed_eq_model,
-        htr, ht.1, src_ss_tell_eq_model, hc1, SStr.seekCur, hrel.stream, hrel.reader, hrel.real, hrel.max, hrel.chunk]
+        htr, ht.1, src_ss_tell_eq_model, hc1, SStr.seekCur, hrel.stream, hrel.reader, hrel.real, hrel.max, hrel.chunk] <;>
+      try omega
 
 /-- `seek(n, os.SEEK_END)` with `n ≤ len`: the `len` property, a rewind, a traversal of `len - n` code points —
     `SStr.seekEnd`; returns `len - n` -/
